@@ -227,6 +227,12 @@ func (x *specRun) handlers(hs []*handler) *stop {
 			return &stop{true, 0}
 		case 'x', 'y':
 			isErr, st := x.s.realHandler(h.kind, h.arg)
+			if h.kind == 'y' && !isErr && st == 103 {
+				// Early Hints: the interim header is written and the request passed on
+				x.tag("real-static-response:early-hints")
+				x.events = append(x.events, event{hint: true})
+				continue
+			}
 			x.tag(map[byte]string{'x': "real-error-handler", 'y': "real-static-response"}[h.kind] + ":" + []string{"default", "placeholder", "not-a-number", "number"}[min(h.arg, 3)])
 			if h.arg == 1 && x.s.repl >= 0 && x.s.repl != x.s.ctxErr {
 				x.tag("placeholder-stale-after-plain-error")
